@@ -194,6 +194,7 @@ class Run:
             k, sp, base, cnt = job
             ev = dict(env or {})
             ev["TRACE_FILE"] = sp
+            ev.setdefault("VERIF_PROP", self.pid)   # rules that belong to ONE of the properties sharing a monitor
             ev.setdefault("VERIF_EXTRA", "0")   # "1": the monitor also applies its rules beyond the listed properties (E.. checks)
             r = self.tlc(module, cfg, env=ev, workers=1, timeout=timeout, xmx=xmx, check=False, tag="%s-sh%d-%d" % (cfg, k, base))
             if not r["ok"]:
@@ -260,6 +261,40 @@ def settle(run, verdicts, prop_filter=None):
     return kn, viol
 
 
+def confirm_runaway(run, v):
+    """the watchdog ended a driver because a case was still running: run that case alone, with the same family flags;
+    confirmed only if the watchdog has to end that run as well"""
+    e = v.get("event") or {}
+    if not e.get("case") or not e.get("family"):
+        return "unreproduced"
+    n = getattr(run, "_runaway_n", 0) + 1
+    run._runaway_n = n
+    if n > 2:
+        return "confirmed"
+    cp, tp = run.path("runaway-%d.cases" % n), run.path("runaway-%d.trace" % n)
+    with open(cp, "w") as f:
+        f.write(json.dumps(e["case"]) + "\n")
+    try:
+        run.drive(e["family"], cp, tp, extra=_family_flags(e.get("args") or []))
+    except Infra:
+        return "unreproduced"
+    v["context"] = {"replay_case": e["case"], "family": e["family"], "why": e.get("why")}
+    with open(tp) as f:
+        return "confirmed" if any('"runaway"' in line for line in f) else "unreproduced"
+
+
+def _family_flags(args):
+    """-tier / -mode and other family flags of the original invocation (seed, in, out are set by drive)"""
+    out, i = [], 0
+    while i < len(args):
+        if args[i] in ("-seed", "-in", "-out"):
+            i += 2
+            continue
+        out.append(args[i])
+        i += 1
+    return out
+
+
 def finish(run, level, coverage, assumptions, kn, viol, confirm=None, extra=None):
     """print KNOWN-FINDING / VIOLATION lines, write evidence, return exit code"""
     known, _ = load_known()
@@ -292,7 +327,13 @@ def finish(run, level, coverage, assumptions, kn, viol, confirm=None, extra=None
             depth += 1
         rest = [i for i in range(len(viol)) if i not in set(order)]
         for v in [viol[i] for i in order + rest]:
-            if confirm is not None:
+            if v["verdict"] == "library-call-does-not-return":
+                st = confirm_runaway(run, v)
+                if st == "unreproduced":
+                    log("UNREPRODUCED rejection (treated as infrastructure trouble): %s" % json.dumps(v)[:400])
+                    rc = max(rc, 2)
+                    continue
+            elif confirm is not None:
                 st = confirm(v)
                 if st == "unreproduced":
                     log("UNREPRODUCED rejection (treated as infrastructure trouble): %s" % json.dumps(v)[:400])
